@@ -39,7 +39,7 @@ Init == l = 1 /\ hs = <<>>
 Labels(e) ==
   IF e.row.shape = "random"
   THEN [path |-> e.real.path, pid |-> e.real.pid, extra |-> e.real.extra, actor |-> e.real.actor, mode |-> e.real.mode,
-        wire |-> e.real.wire, valid |-> FALSE]
+        wire |-> e.real.wire, backend |-> e.real.backend, valid |-> FALSE]
   ELSE e.row.lab
 
 TraceCall ==
@@ -62,7 +62,7 @@ TraceCall ==
      IN \* ---- binding of the executor to the abstract row
         /\ Chk("harness_labels", e.row.shape = "random" \/
                  /\ e.real.path = lab.path /\ e.real.pid = lab.pid /\ e.real.extra = lab.extra /\ e.real.mode = lab.mode
-                 /\ e.real.wire = lab.wire
+                 /\ e.real.wire = lab.wire /\ e.real.backend = lab.backend
                  /\ (r.principal => e.real.actor = lab.actor)
                  /\ ShapeApplies(t, r.shape) /\ lab = ShapeLab(t, r.actor, r.shape))
         /\ Chk("harness_victims", /\ e.victim.present = (t \in PidTools /\ t # "instance_start")
@@ -76,6 +76,7 @@ TraceCall ==
         \* ---- refused => no effect on config file, queue, processes
         /\ Chk("noeffect_cfg", refuse => (~cfgChanged /\ Len(wr) = 0))
         /\ Chk("noeffect_db", refuse => e.db_after = e.db_before)
+        /\ Chk("noeffect_proxy", refuse => (e.admin_posts = 0 /\ e.admin_gets = 0))    \* nothing forwarded to the Admin API
         /\ Chk("noeffect_proc", refuse => /\ ~e.spawned
                                           /\ (e.victim.present => (e.victim.alive /\ e.victim.hups = 0 /\ ~e.pidfile_gone)))
         \* ---- audit: exactly one record per mutating call (allowed, denied or failed), none otherwise
